@@ -14,8 +14,8 @@ theorems below say what that means on the wire.
     denies the client                                                    auth_failure_nak_or_policy_deny
   time answer to an authenticated request is under the s2c key, with
     nothing outside the authenticated / encrypted part                   time_answer_under_s2c_key
-  … and carries an authenticator — FALSE as stated (finding F-C19a)     auth_counterexample
-    true for NTPv5, with an identifier, or a cookie among the first 8    time_answer_has_authenticator
+  … and always carries at least one fresh cookie, hence an encrypted
+    field and an authenticator (fix F-C19a)                              time_answer_has_authenticator
   at most one fresh cookie per cookie or placeholder, never more than
     eight, none larger than the field it replaces                        fresh_cookie_bounds
   fresh cookies travel only inside the encrypted part                    cookies_only_encrypted
@@ -84,72 +84,48 @@ theorem time_answer_under_s2c_key {info env req alg r}
     or an encrypted field (`ExtensionFieldData::serialize`) -/
 def HasAuthenticator (r : Response) : Prop := ¬ (r.auth = [] ∧ r.enc = [])
 
-/-- authenticated and encrypted fields of the NTS time answer to a request (they do not depend on the clock or
-    the synchronisation state) -/
-def ntsFields (info : Info) (req : Req) (alg : Nat) : List RField × List RField :=
-  (if req.version = 5 then req.auth.filterMap (echoV5 info.bloom) ++ [.draft] else req.auth.filterMap uidOf,
-   freshCookies alg req)
+/-- the request holds the cookie it authenticated with among its authenticated fields, and that field is at least
+    as long as a fresh cookie for the same algorithm and keys (a fact about the parser's cipher provider and the
+    AEAD's length preservation; oracle clause `c19_cookie_present` checks it on every authenticated request) -/
+def CookiePresent (req : Req) (alg : Nat) : Prop :=
+  ∃ n, freshCookieLen alg ≤ n ∧ Field.cookie n ∈ req.auth
 
-theorem build_ntsFields {info env req alg r} (h : build info env req (some alg) .time = .ok r) :
-    (r.auth, r.enc) = ntsFields info req alg := by
-  simp only [build, ntsTimestampResponse] at h
-  repeat' split at h
-  all_goals first
-    | (simp at h; done)
-    | (simp only [Built.ok.injEq] at h; subst h; simp [ntsFields, *])
-
-/-- The sentence "every time answer to an authenticated request can be authenticated by the client" as stated:
-    the answer always has an authenticator. -/
-def AuthFull : Prop :=
-  ∀ (info : Info) (req : Req) (alg : Nat), req.version ≠ 3 →
-    ¬ ((ntsFields info req alg).1 = [] ∧ (ntsFields info req alg).2 = [])
-
-/-- finding F-C19a: a valid NTPv4 NTS request without identifier whose cookie is the ninth authenticated field -/
-def reqA : Req :=
-  { len := 400, fv := 4, parse := .ok, version := 4, client := true, poll := 6, xmit := [1, 2, 3, 4, 5, 6, 7, 8],
-    reft := [0, 0, 0, 0, 0, 0, 0, 0], untrusted := [],
-    auth := List.replicate 8 (.unknown 0x4242 4) ++ [.cookie 104, .placeholder 104], enc := [],
-    cookie := some 15, encw := 40, mac := 0 }
-
-def infoA : Info :=
-  { stratum := 2, refid := [1, 2, 3, 4], leap := 0, precision := 4096, rootDelay := 65536, bloom := [], keysOk := true }
-
-/-- The unchanged code VIOLATES that sentence: `nts_timestamp_response` looks for cookies among the first eight
-    fields only and echoes identifiers only, so the answer to `reqA` has neither authenticated nor encrypted
-    fields and is serialised without authenticator (known finding F-C19a; replayed on the real server as corpus
-    case 6 of every main stream). -/
-theorem auth_counterexample : ¬ AuthFull := by
-  intro h
-  exact h infoA reqA 15 (by decide) (by decide)
-
-/-- The sentence holds whenever the answer has something to authenticate: NTPv5 (draft identification), an
-    identifier among the authenticated fields, or a sufficiently long cookie / placeholder among the first eight. -/
+/-- **Every time answer to an authenticated request carries at least one fresh cookie** in its encrypted list —
+    hence an encrypted field and an NTS authenticator (fix F-C19a: the eight-cookie limit is applied to the
+    cookies produced, so the request's own cookie always yields one, wherever it sits).  Together with
+    `time_answer_authenticates` this is the sentence "every time answer to an authenticated request can be
+    authenticated by the client with the cookie's server-to-client key". -/
 theorem time_answer_has_authenticator {info env req alg r}
-    (h : build info env req (some alg) .time = .ok r)
-    (hc : req.version = 5 ∨ (∃ b, Field.uid b ∈ req.auth) ∨ freshCookies alg req ≠ []) : HasAuthenticator r := by
-  simp only [build, ntsTimestampResponse] at h
-  split at h
-  · simp at h
-  · split at h
-    · simp at h
-    · split at h
-      · simp at h
-      · simp only [Built.ok.injEq] at h
-        subst h
-        intro ⟨ha, he⟩
-        simp only at ha he
-        rcases hc with h5 | ⟨b, hb⟩ | hck
-        · simp [h5] at ha
-        · split at ha
-          · simp at ha
-          · have : RField.uid b ∈ req.auth.filterMap uidOf := by
-              simp only [List.mem_filterMap]; exact ⟨_, hb, rfl⟩
-            rw [ha] at this; simp at this
-        · exact hck he
+    (h : build info env req (some alg) .time = .ok r) (hc : CookiePresent req alg) :
+    r.enc ≠ [] ∧ HasAuthenticator r := by
+  have henc : r.enc = freshCookies alg req := by
+    simp only [build, ntsTimestampResponse] at h
+    repeat' split at h
+    all_goals first
+      | (simp at h; done)
+      | (simp only [Built.ok.injEq] at h; subst h; rfl)
+  have hne : r.enc ≠ [] := by
+    rw [henc]
+    obtain ⟨n, hn, hm⟩ := hc
+    have hmem : RField.cookie (freshCookieLen alg) ∈ (req.auth ++ req.enc).filterMap (cookieFor alg) := by
+      simp only [List.mem_filterMap]
+      exact ⟨.cookie n, by simp [hm], by simp [cookieFor]; omega⟩
+    unfold freshCookies
+    intro hnil
+    have hlen : ((req.auth ++ req.enc).filterMap (cookieFor alg)).length ≠ 0 := by
+      intro h0
+      rw [List.length_eq_zero_iff] at h0
+      rw [h0] at hmem; simp at hmem
+    have : (List.take Gen.MAX_COOKIES ((req.auth ++ req.enc).filterMap (cookieFor alg))).length = 0 := by
+      rw [hnil]; rfl
+    rw [List.length_take] at this
+    have h8 : Gen.MAX_COOKIES = 8 := rfl
+    omega
+  exact ⟨hne, fun ⟨_, he⟩ => hne he⟩
 
-/-- cookie and placeholder fields of the request that the server looks at: those among the first eight
-    authenticated / encrypted fields -/
-def slots (req : Req) : List Field := ((req.auth ++ req.enc).take 8).filter isCookieLike
+/-- cookie and placeholder fields of the request (all of them are looked at; the first eight long enough ones
+    are replaced) -/
+def slots (req : Req) : List Field := (req.auth ++ req.enc).filter isCookieLike
 
 def slotLen : Field → Nat
   | .cookie n => n
@@ -186,12 +162,12 @@ private theorem filterMap_cookieFor_length (alg : Nat) (fs : List Field) :
     | placeholder n => exact hslot n (.inr rfl)
     | _ => exact hother rfl rfl
 
-/-- Fresh cookies: at most eight; at most one per cookie / placeholder of the request — more precisely, no more
-    than there are cookie / placeholder fields (among the first eight fields) at least as long as a fresh
-    cookie, so each fresh cookie replaces a distinct field that is not smaller; all of one length. -/
+/-- Fresh cookies: at most eight; at most one per cookie / placeholder of the request — exactly one for each
+    of the first eight cookie / placeholder fields that are at least as long as a fresh cookie, so each fresh
+    cookie replaces a distinct field that is not smaller; all of one length. -/
 theorem fresh_cookie_bounds {info env req alg r} (h : build info env req (some alg) .time = .ok r) :
     r.enc.length ≤ 8 ∧ r.enc.length ≤ (slots req).length ∧
-    r.enc.length = ((slots req).filter (fun f => decide (freshCookieLen alg ≤ slotLen f))).length ∧
+    r.enc.length = min 8 ((slots req).filter (fun f => decide (freshCookieLen alg ≤ slotLen f))).length ∧
     ∀ f ∈ r.enc, f = .cookie (freshCookieLen alg) := by
   have henc : r.enc = freshCookies alg req := by
     simp only [build, ntsTimestampResponse] at h
@@ -200,26 +176,17 @@ theorem fresh_cookie_bounds {info env req alg r} (h : build info env req (some a
       | (simp at h; done)
       | (simp only [Built.ok.injEq] at h; subst h; rfl)
   rw [henc]
-  have hlen := filterMap_cookieFor_length alg ((req.auth ++ req.enc).take Gen.MAX_COOKIES)
+  have hlen := filterMap_cookieFor_length alg (req.auth ++ req.enc)
   have hmax : Gen.MAX_COOKIES = 8 := rfl
-  have h8 : ((req.auth ++ req.enc).take 8).length ≤ 8 := by simp [List.length_take]; omega
-  have hsplit : ((req.auth ++ req.enc).take 8).filter (fun f => isCookieLike f && decide (freshCookieLen alg ≤ slotLen f))
+  have hsplit : (req.auth ++ req.enc).filter (fun f => isCookieLike f && decide (freshCookieLen alg ≤ slotLen f))
       = (slots req).filter (fun f => decide (freshCookieLen alg ≤ slotLen f)) := by
     simp [slots, List.filter_filter, Bool.and_comm]
-  refine ⟨?_, ?_, ?_, ?_⟩
-  · unfold freshCookies
-    have := List.length_filterMap_le (cookieFor alg) ((req.auth ++ req.enc).take Gen.MAX_COOKIES)
-    rw [hmax] at this ⊢; omega
-  · unfold freshCookies
-    rw [hlen, hmax, hsplit]
-    exact List.length_filter_le _ _
-  · unfold freshCookies
-    rw [hlen, hmax, hsplit]
-  · intro f hf
-    simp only [freshCookies, List.mem_filterMap] at hf
-    obtain ⟨x, _, hx⟩ := hf
-    cases x <;> simp [cookieFor] at hx
-    all_goals (exact hx.2.symm)
+  have hle := List.length_filter_le (fun f => decide (freshCookieLen alg ≤ slotLen f)) (slots req)
+  have hl : (freshCookies alg req).length
+      = min 8 ((slots req).filter (fun f => decide (freshCookieLen alg ≤ slotLen f))).length := by
+    unfold freshCookies
+    rw [List.length_take, hlen, hmax, hsplit]
+  refine ⟨by omega, by omega, hl, fun f hf => mem_freshCookies hf⟩
 
 /-- Fresh cookies travel only inside the encrypted part, and only in time answers to authenticated requests:
     no clear-text or authenticated field of any answer is a cookie, and DENY / NAK answers carry none. -/
@@ -455,26 +422,32 @@ theorem encode_panics_iff (ks : KeySet κ) (c : Cookie) (nonce ct : (List UInt8)
 
 end cookies
 
-/-! #### non-vacuity: the documented quirk — the first eight fields are taken BEFORE filtering -/
+/-! #### non-vacuity: with fix F-C19a the limit of eight applies to the cookies produced -/
 
 def reqN (fs : List Field) : Req :=
   { len := 1000, fv := 4, parse := .ok, version := 4, client := true, poll := 6, xmit := [1, 2, 3, 4, 5, 6, 7, 8],
     reft := [0, 0, 0, 0, 0, 0, 0, 0], untrusted := [], auth := fs, enc := [], cookie := some 15, encw := 40, mac := 0 }
 
-/-- identifier + cookie + 7 placeholders: 8 cookies asked, 7 given (the identifier occupies one of the 8 slots) -/
-example : (freshCookies 15 (reqN ([.uid [1], .cookie 104] ++ List.replicate 7 (.placeholder 104)))).length = 7 := by
+/-- identifier + cookie + 7 placeholders: 8 cookies asked, 8 given (before the fix: 7) -/
+example : (freshCookies 15 (reqN ([.uid [1], .cookie 104] ++ List.replicate 7 (.placeholder 104)))).length = 8 := by
   decide
+/-- never more than eight -/
+example : (freshCookies 15 (reqN ([.cookie 104] ++ List.replicate 11 (.placeholder 104)))).length = 8 := by decide
 /-- a placeholder shorter than a fresh cookie is not replaced -/
 example : freshCookies 15 (reqN [.uid [1], .cookie 104, .placeholder 100, .placeholder 104])
     = [.cookie 104, .cookie 104] := by decide
+/-- the witness of F-C19a: no identifier, cookie as ninth authenticated field — now one fresh cookie -/
+example : freshCookies 15 (reqN (List.replicate 8 (.unknown 0x4242 4) ++ [.cookie 104])) = [.cookie 104] ∧
+    CookiePresent (reqN (List.replicate 8 (.unknown 0x4242 4) ++ [.cookie 104])) 15 := by
+  refine ⟨by decide, 104, by decide, by decide⟩
 
 end NtpVerif.C19
+
 
 #print axioms NtpVerif.C19.auth_failure_nak_or_policy_deny
 #print axioms NtpVerif.C19.time_answer_under_s2c_key
 #print axioms NtpVerif.C19.fresh_cookie_bounds
 #print axioms NtpVerif.C19.cookies_only_encrypted
-#print axioms NtpVerif.C19.auth_counterexample
 #print axioms NtpVerif.C19.time_answer_has_authenticator
 #print axioms NtpVerif.C19.time_answer_authenticates
 #print axioms NtpVerif.C19.fresh_cookies_decode_to_session_keys
